@@ -173,39 +173,74 @@ def check_compare(ctx, fb):
     it_h, h = const_item_int(fb, G + "HALF_M")
     ctx.check(m == P_MOD, "R19-2", "M", "M equals the BN254 scalar field order", "graph::M is %s" % m, loc(it_m))
     ctx.check(h == (P_MOD - 1) // 2, "R19-2", "HALF_M", "HALF_M = (p-1)/2", "graph::HALF_M is %s, (p-1)/2 is %s" % (h, (P_MOD - 1) // 2), loc(it_h))
+    def sign_atom(t):
+        """'a' / 'b' when t is the term `HALF_M < p1` / `HALF_M < p2` (either spelling), else None"""
+        if not (isinstance(t, tuple) and t and t[0] == "cmp"):
+            return None
+        x = None
+        if t[1] == "lt" and const_int(t[2]) == h:
+            x = t[3]
+        elif t[1] == "gt" and const_int(t[3]) == h:
+            x = t[2]
+        return "a" if x == P(1) else ("b" if x == P(2) else None)
+
+    class Unknown(Exception):
+        pass
+
+    def evalb(t, env):
+        """value of a boolean term over the two sign atoms under env {'a': bool, 'b': bool}; anything else is not a sign test"""
+        sa = sign_atom(t)
+        if sa is not None:
+            return env[sa]
+        if isinstance(t, tuple) and t:
+            if t[0] == "b":
+                return evalb(t[1], env)
+            if t[0] == "bin" and t[1] in ("Eq", "Ne", "BitAnd", "BitOr", "BitXor"):
+                x, y = evalb(t[2], env), evalb(t[3], env)
+                return {"Eq": x == y, "Ne": x != y, "BitAnd": x and y, "BitOr": x or y, "BitXor": x != y}[t[1]]
+            if t[0] == "un" and t[1] == "Not":
+                return not evalb(t[2], env)
+            if t[0] == "const" and isinstance(t[2], (bool, int)):
+                return bool(t[2])
+        raise Unknown(sh(t, 100))
+
+    # helpers of graph.rs the four functions may share (a common signed-compare routine, a sign predicate, closures) are evaluated
+    # in place; the table is then *decided* per sign assignment, whatever boolean structure the code uses to tell the cases apart
+    inl = lambda i: i.kind == "Closure" or ((i.file or "").endswith("iden3calc/graph.rs") and not re.search(r"graph::u_(lt|lte|gt|gte)$|eval_fr$|::eval$", i.path))
     for fn, (op, tf, ft) in sorted(CMP_SPEC.items()):
         it = fb.need(G + fn)
         ctx.touch(it)
-        eng = Engine(fb, inline=lambda i: False)
-        paths = eng.run(it)
+        eng = Engine(fb, inline=inl, max_depth=4)
+        paths = [p for p in eng.run(it) if p.kind != "unreachable"]
         table = {}
         bad = None
-        for p in paths:
-            if p.kind != "return":
-                bad = "a path diverges"
-                break
-            an = bn = None
-            for a, v in p.conds():
-                t = a[1]
-                if a[0] == "b" and t[0] == "cmp" and t[1] == "lt" and const_int(t[2]) == h:
-                    if t[3] == P(1):
-                        an = v
-                    elif t[3] == P(2):
-                        bn = v
-                elif a[0] == "b" and t[0] == "cmp" and t[1] == "gt" and const_int(t[3]) == h:
-                    if t[2] == P(1):
-                        an = v
-                    elif t[2] == P(2):
-                        bn = v
+        if any(p.kind != "return" for p in paths):
+            bad = "a path diverges"
+        for an in (False, True):
+            for bn in (False, True):
+                if bad:
+                    break
+                env = {"a": an, "b": bn}
+                live = []
+                for p in paths:
+                    try:
+                        if all(evalb(a, env) == v for a, v in p.conds()):
+                            live.append(p)
+                    except Unknown as e:
+                        bad = "the result depends on a condition that is not a test of the operands' signs: %s" % e
+                        break
+                if bad:
+                    break
+                if len(live) != 1:
+                    bad = "%d paths apply to (a_neg, b_neg) = (%s, %s)" % (len(live), an, bn)
+                    break
+                rv = eng.value_of(live[0].store, live[0].ret)
+                if rv[0] == "call" and rv[1].endswith("::from") and rv[2][0][0] == "cmp":
+                    c = rv[2][0]
+                    val = ("cmp", c[1], c[2], c[3])
                 else:
-                    bad = "unexpected condition %s" % sh(a, 100)
-            rv = eng.value_of(p.store, p.ret)
-            if rv[0] == "call" and rv[1].endswith("::from") and rv[2][0][0] == "cmp":
-                c = rv[2][0]
-                val = ("cmp", c[1], c[2], c[3])
-            else:
-                val = const_int(rv)
-            table[(an, bn)] = val
+                    val = const_int(rv)
+                table[(an, bn)] = val
         want = {(False, False): ("cmp", op, P(1), P(2)), (True, True): ("cmp", op, P(1), P(2)), (True, False): tf, (False, True): ft}
         if bad is None and table != want:
             diffs = [k for k in want if table.get(k) != want[k]]
